@@ -10,6 +10,7 @@ import (
 	"fmt"
 	"io"
 	"os"
+	"path/filepath"
 	"strings"
 	"sync"
 	"sync/atomic"
@@ -22,6 +23,11 @@ import (
 	"verif/harness/internal/provrun"
 	"verif/harness/internal/vf"
 
+	pkgerrors "github.com/pkg/errors"
+	"github.com/spf13/afero"
+	"github.com/yandex/pandora/components/providers/grpc/grpcjson"
+	httpprovider "github.com/yandex/pandora/components/providers/http"
+	httpconfig "github.com/yandex/pandora/components/providers/http/config"
 	"github.com/yandex/pandora/core"
 	"github.com/yandex/pandora/core/datasource"
 	"github.com/yandex/pandora/core/engine"
@@ -61,7 +67,14 @@ type Case struct {
 	MaxAmmoSize int   `json:"maxammosize,omitempty"`
 	// generic json provider: the data source its `source` option names (one of jsonSources; "" = "file")
 	Source string `json:"source,omitempty"`
+	// OsFs (HTTP formats and grpc/json): the ammo file is a real file in a temporary directory and the provider reads it
+	// through afero.NewOsFs(), the file system the pandora binary passes to the providers (cli: Import(afero.NewOsFs())),
+	// instead of the in-memory one. See buildOnOsFs.
+	OsFs bool `json:"os_fs,omitempty"`
 }
+
+// kinds that are also built over the real file system
+func hasOsFs(k string) bool { return isHTTP(k) || k == "grpc/json" }
 
 // The data sources of the generic JSON (decode) provider. The first three are what a config can name (core/import registers
 // file, stdin and inline; the string shorthand `source: <path>` is not generated - core/import never installs its
@@ -245,6 +258,9 @@ func genCase(t *rapid.T) Case {
 			c.MaxAmmoSize = rapid.SampledFrom([]int{0, 0, 0, 128 << 10, 1 << 20}).Draw(t, "maxammosize")
 		}
 	}
+	if hasOsFs(c.Kind) {
+		c.OsFs = rapid.IntRange(0, 4).Draw(t, "osFs") < 2
+	}
 	return c
 }
 
@@ -286,6 +302,10 @@ func buildProvider(c Case) (p core.Provider, cleanup func(), err error) {
 	conf, content, cleanup, err := buildConf(c)
 	if err != nil {
 		return nil, cleanup, err
+	}
+	if c.OsFs && hasOsFs(c.Kind) {
+		p, err = buildOnOsFs(c, conf)
+		return p, cleanup, err
 	}
 	if c.Kind != "json" {
 		p, err = provrun.Build(conf)
@@ -346,16 +366,76 @@ func buildProvider(c Case) (p core.Provider, cleanup func(), err error) {
 	return p, cleanup, err
 }
 
+// buildOnOsFs builds the provider the way the plugin factories registered by pandora's Import functions do - the options
+// are decoded into the provider's config struct by the real config decoding, the factory's constructor is called with that
+// struct - but with afero.NewOsFs() as the file system: the registry of this process is bound to the shared in-memory fs
+// (the Import functions can be called once), the pandora binary binds it to the OS. What differs is the file object the
+// provider holds: an *os.File (a descriptor; reading, seeking or closing it after it was closed is an error) instead of
+// afero's mem.File, whose Close is idempotent. conf["file"] is an absolute path of a real file here (see buildConf).
+func buildOnOsFs(c Case, conf map[string]any) (core.Provider, error) {
+	opts := map[string]any{}
+	for k, v := range conf {
+		if k != "type" {
+			opts[k] = v
+		}
+	}
+	fs := afero.NewOsFs()
+	if c.Kind == "grpc/json" {
+		var cfg grpcjson.Config
+		if err := pand.Decode(opts, &cfg); err != nil {
+			return nil, err
+		}
+		return grpcjson.NewProvider(fs, cfg), nil
+	}
+	var cfg httpconfig.Config
+	if err := pand.Decode(opts, &cfg); err != nil {
+		return nil, err
+	}
+	// what components/providers/http Import does for the provider types "uri", "uripost", "raw", "http/json"
+	switch c.Kind {
+	case "uri":
+		cfg.Decoder = httpconfig.DecoderURI
+	case "uripost":
+		cfg.Decoder = httpconfig.DecoderURIPost
+	case "raw":
+		cfg.Decoder = httpconfig.DecoderRaw
+	case "jsonline", "jsonarray":
+		cfg.Decoder = httpconfig.DecoderJSONLine
+	default:
+		return nil, fmt.Errorf("harness: no OS-fs construction for kind %s", c.Kind)
+	}
+	return httpprovider.NewProvider(fs, cfg)
+}
+
 // buildConf writes the ammo file(s) for the case and returns the provider config (and, for the generic json provider,
 // the text of its source).
 func buildConf(c Case) (conf map[string]any, content string, cleanup func(), err error) {
 	var files []string
+	osDir := ""
 	cleanup = func() {
 		for _, f := range files {
 			pand.Remove(f)
 		}
+		if osDir != "" {
+			os.RemoveAll(osDir)
+		}
 	}
 	write := func(ext string, data []byte) string {
+		if c.OsFs && hasOsFs(c.Kind) {
+			// a real file in a directory of its own, removed with the case
+			if osDir == "" {
+				d, e := os.MkdirTemp("", "verif-c08-osfs-")
+				if e != nil {
+					panic(e)
+				}
+				osDir = d
+			}
+			n := filepath.Join(osDir, "ammo"+ext)
+			if e := os.WriteFile(n, data, 0o644); e != nil {
+				panic(e)
+			}
+			return n
+		}
 		n := pand.WriteFile("c08", ext, data)
 		files = append(files, n)
 		return n
@@ -480,6 +560,18 @@ func check(c Case, o *vf.Obs) error {
 	o.ClassIf(c.Filter == "subset", "chosencases_subset")
 	o.ClassIf(c.Filter == "subset" && eff < c.Entries, "chosencases_proper_subset")
 	o.ClassIf(c.MaxAmmoSize > 0, "maxammosize_set")
+	if c.OsFs {
+		// the provider holds a real OS file; "bounded" = it ends by itself at its bounds, "cancelled" = only the cancel ends it
+		o.Class("os_fs")
+		o.Class(c.Kind + "/os_fs")
+		o.ClassIf(c.Preload, c.Kind+"/os_fs_preload")
+		o.ClassIf(X >= 0 && c.Filter != "nothing", "os_fs_bounded")
+		o.ClassIf(X >= 0 && c.Filter != "nothing", c.Kind+"/os_fs_bounded")
+		o.ClassIf(X >= 0 && c.Filter != "nothing" && c.Engine, "os_fs_bounded_through_engine")
+		o.ClassIf(X >= 0 && c.Filter != "nothing" && c.Engine, c.Kind+"/os_fs_bounded_through_engine")
+		o.ClassIf(X < 0 && c.Filter != "nothing" && !c.BrokenTail, "os_fs_cancelled")
+		o.ClassIf(X < 0 && c.Filter != "nothing" && !c.BrokenTail, c.Kind+"/os_fs_cancelled")
+	}
 	if c.Kind == "json" {
 		// "read_again" = the bounds need the source to be read from its start more than once
 		o.Class("json/source_" + c.source())
@@ -551,7 +643,18 @@ func check(c Case, o *vf.Obs) error {
 	if res.RunErr != nil && res.RunErr != context.Canceled && !strings.Contains(res.RunErr.Error(), "context canceled") {
 		return fmt.Errorf("%s%s unbounded: Run returned %q after cancel (expected nil or the context error)", c.Kind, c.extras(), res.RunErr)
 	}
+	if c.OsFs && !cleanCancel(res.RunErr) {
+		return fmt.Errorf("%s (preload=%v)%s unbounded, ammo file on the OS file system: Run returned %q after cancel, expected nil or the bare context error (the engine fails the pool for anything else)", c.Kind, c.Preload, c.extras(), res.RunErr)
+	}
 	return nil
+}
+
+// cleanCancel: what a cancelled provider may return so that the run still "ends successfully" - nil, or the error of its
+// cancelled context as such. It is the test core/engine applies to the provider's result (errutil.IsCtxError: the cause
+// of the error is the context's error); a context error bundled with another failure ("Multiple errors faced: context
+// canceled, close ...") has no such cause and fails the pool.
+func cleanCancel(err error) bool {
+	return err == nil || pkgerrors.Cause(err) == context.Canceled
 }
 
 // checkLive: nobody stops acquiring by itself. Whatever makes Run return - the cancel that arrives while the consumers
@@ -577,6 +680,9 @@ func checkLive(c Case, p core.Provider, want int, o *vf.Obs) error {
 	}
 	if !res.SelfStopped && res.RunErr != nil && res.RunErr != context.Canceled && !strings.Contains(res.RunErr.Error(), "context canceled") {
 		return fmt.Errorf("%s: Run returned %q after cancel (expected nil or the context error)", what, res.RunErr)
+	}
+	if c.OsFs && !c.BrokenTail && !res.SelfStopped && !cleanCancel(res.RunErr) {
+		return fmt.Errorf("%s, ammo file on the OS file system: Run returned %q after cancel, expected nil or the bare context error (the engine fails the pool for anything else)", what, res.RunErr)
 	}
 	if res.SelfStopped && res.RunErr == nil && !c.BrokenTail {
 		return fmt.Errorf("%s: Run returned nil by itself after %d ammo although neither limit nor passes is set", what, res.Taken)
@@ -605,6 +711,9 @@ func (c Case) extras() string {
 	}
 	if c.MaxAmmoSize > 0 {
 		fmt.Fprintf(&sb, " maxammosize=%d", c.MaxAmmoSize)
+	}
+	if c.OsFs {
+		sb.WriteString(" fs=os")
 	}
 	if c.maxSize() > 0 {
 		fmt.Fprintf(&sb, " entry body sizes=%v", c.Sizes)
